@@ -111,6 +111,8 @@ fn live_ctr(c: Ctr) -> i64 {
 }
 
 fn tag_r(r: u32) -> u64 { 1_000_000 + r as u64 }
+fn tag_d(r: u32) -> u64 { 5_000_000 + r as u64 }
+fn val_d(r: u32) -> u32 { 90 + 11 * r }
 fn tag_g(r: u32, j: u32) -> u64 { 4_000_000 + 10 * r as u64 + j as u64 }
 fn val_g(r: u32, j: u32) -> u32 { 500 + 20 * r + 7 * j }
 const VAL_GZ: u32 = 5;
@@ -202,7 +204,7 @@ fn value_of(r: u32, k: u32, n: u32, z: u32, uc: bool, uf: bool, ud: bool, us: u8
         v += VAL_GZ;
     }
     if uc {
-        v += val_r(r);
+        v += val_r(r) + val_d(r);
     }
     if uf {
         v += val_f(r);
@@ -428,6 +430,8 @@ impl Spec {
             // a module may keep a registered constant it does not read; that is not "too early"
             let may = needed || self.compiled.iter().any(|(k, i)| i.r == *r && self.referred(*k));
             out.push((Ctr::Tag(tag_r(*r)), format!("R{r}"), needed as i64, may as i64, true));
+            // the second registered constant of the SAME type (registered and read together with the first)
+            out.push((Ctr::Tag(tag_d(*r)), format!("RD{r}"), needed as i64, may as i64, false));
             rz_min += needed as i64;
             rz_max += may as i64;
         }
@@ -473,6 +477,7 @@ impl Spec {
         // the order the Lean driver prints them in: R, F, S, Z, G<r>.<j>, GZ
         let rank = |n: &str| match (&n[..1], n) {
             (_, "RZ") => 1,
+            _ if n.starts_with("RD") => 1,
             ("R", _) => 0,
             ("F", _) => 2,
             ("S", _) => 3,
@@ -612,7 +617,7 @@ fn script(r: u32, k: u32, n: u32, z: u32, uc: bool, uf: bool, ud: bool, us: u8) 
         s.push_str("\n    + (match SLT.get(0) { Some(t) => val(t), None => 0, })");
     }
     if uc {
-        s.push_str(" + val(REGC) + zrval(REGZ)");
+        s.push_str(" + val(REGC) + val(REGD) + zrval(REGZ)");
     }
     if uf {
         s.push_str(" + getclos()");
@@ -651,15 +656,19 @@ impl World {
             Op::RegConst(r) => {
                 let c = roto::Constant::new("REGC", "tracked constant", Val(Tk::new(tag_r(*r), val_r(*r))), roto::location!())
                     .map_err(|e| format!("{e}"))?;
+                let cd = roto::Constant::new("REGD", "second tracked constant of the same type", Val(Tk::new(tag_d(*r), val_d(*r))), roto::location!())
+                    .map_err(|e| format!("{e}"))?;
                 let cz = roto::Constant::new("REGZ", "zero-sized tracked constant", Val(Zr::new()), roto::location!())
                     .map_err(|e| format!("{e}"))?;
                 match self.rts.get_mut(r).unwrap() {
                     Rt::No(rt) => {
                         rt.add(c).map_err(|e| format!("{e}"))?;
+                        rt.add(cd).map_err(|e| format!("{e}"))?;
                         rt.add(cz).map_err(|e| format!("{e}"))?
                     }
                     Rt::Cx(rt) => {
                         rt.add(c).map_err(|e| format!("{e}"))?;
+                        rt.add(cd).map_err(|e| format!("{e}"))?;
                         rt.add(cz).map_err(|e| format!("{e}"))?
                     }
                 }
